@@ -36,6 +36,13 @@ Proof.
     f_equal. f_equal. lia.
 Qed.
 
+Lemma epoch_inverse_lemma : forall wide y m d h mi s,
+  1970 <= y <= 2099 -> valid_date y m d = true -> 0 <= h < 24 -> 0 <= mi < 60 -> 0 <= s < 60 ->
+  (wide = true \/ days_from_civil y m d * 86400 + h * 3600 + mi * 60 + s <= INT_MAX) ->
+  time_to_epoch_gen wide (mk_tm y m d h mi s) 0 false
+  = Some (days_from_civil y m d * 86400 + h * 3600 + mi * 60 + s, false).
+Proof. intros; apply time_to_epoch_valid; assumption. Qed.
+
 (* ------------------------------------------------------------------ the model parser follows the reader *)
 Lemma is_now_false : forall s, (4 <= length s)%nat -> is_now s = false.
 Proof.
